@@ -45,7 +45,7 @@ def main():
                 tests[c] = out.strip().splitlines()
             res["tests"] = tests
             fails = sum(int(m) for l in sum(tests.values(), []) for m in re.findall(r"(\d+) failed", l))
-            res["compiles"] = not any("error" in l for l in sum(tests.values(), []))
+            res["compiles"] = not any(("could not compile" in l or "error[" in l) for l in sum(tests.values(), []))
             # baseline: one known failing test per touched crate at most (empty vector files)
             res["tests_failed"] = fails
             checks = {}
